@@ -11,11 +11,14 @@ import json
 from harness import common
 from harness.gen import layouts
 from harness.props import c03
-from harness.sched import runner
+from harness.sched import exitfaults, runner
 
 RULE = ('case = C03 case + fault plan: callback cancels/raises at pieces_done = k (every k up to the piece count in '
         'small runs), read call r fails with OSError or a MemoryError burst (every r in small runs), start of thread '
-        't refused (every t); x schedule strategies x 1..3 hasher threads; non-trivial = the fault actually fired '
+        't refused (every t); x schedule strategies x 1..3 hasher threads; round 6: OSError at the n-th close() (every '
+        'open file of the finally block; evictions with 12..15 files), the n-th seek(), open()/stat of every file, combined '
+        'with cancelling/raising callbacks and read faults, and calls whose callback / interval / thread count has the '
+        'wrong type; non-trivial = the fault actually fired '
         'and >= 2 threads were running at that moment; distinct = distinct (case, schedule) pairs')
 
 
@@ -31,7 +34,8 @@ def _d04a(case, observed, finding):
         observed.get('only_problem') == 'threads-left-after-start-refusal'
 
 
-MATCHERS = {'start_of_vital_thread_refused': _d04a}
+MATCHERS = {'start_of_vital_thread_refused': _d04a, **exitfaults.MATCHERS}
+BATCH = 6000
 
 
 def gen_cases(ctx, scale=1.0):
@@ -328,7 +332,18 @@ def run(ctx, drv):
         'the out-of-memory handler\'s shrinking of the piece queue is not part of the transition system: a smaller '
         'capacity only removes behaviours, so every observed run is still replayed in the model (capacity = initial)',
     ]
-    evaluate(ctx, drv, gen_cases(ctx))
+    cases = gen_cases(ctx)
+    for i in range(0, len(cases), BATCH):        # (bounded memory in the thorough tier: traces are kept per batch only)
+        evaluate(ctx, drv, cases[i:i + BATCH])
+    # faults in the reader's other OS calls (close in the finally block and on eviction, seek, open, stat) and failures
+    # of the calling thread itself (arguments of the wrong type): harness/sched/exitfaults.py
+    ctx.notes['assumptions'].append(
+        'close()/seek()/open()/stat faults are injected through the same shadowed `open` (and a forwarding `os` in '
+        'torf._stream); a file that cannot be opened is an error item exactly like a missing file; whether a failing '
+        'close() was the finally block\'s or an eviction is read off the trace (did the reader queue anything afterwards)')
+    cases = exitfaults.gen_cases(ctx)
+    for i in range(0, len(cases), BATCH):
+        exitfaults.evaluate(ctx, drv, cases[i:i + BATCH], strict=True, matchers=MATCHERS)
 
 
 def search(ctx, drv):
@@ -338,9 +353,14 @@ def search(ctx, drv):
         c03.evaluate_directed(ctx, drv, d)
     if not ctx.violations:
         evaluate(ctx, drv, gen_cases(ctx, scale=2.0))
+    if not ctx.violations:
+        exitfaults.evaluate(ctx, drv, exitfaults.gen_cases(ctx, scale=2.0), strict=True, matchers=MATCHERS)
 
 
 def replay(ctx, drv, rp):
-    evaluate(ctx, drv, [dict(rp['case'])])
+    if exitfaults.is_exit_case(rp['case']):
+        exitfaults.evaluate(ctx, drv, [dict(rp['case'])], strict=True, matchers=MATCHERS)
+    else:
+        evaluate(ctx, drv, [dict(rp['case'])])
     return {'fails': bool(ctx.violations or ctx.corr_breaks), 'violations': ctx.violations,
             'corr_breaks': ctx.corr_breaks, 'known': list(ctx.known)}
